@@ -84,6 +84,7 @@ var Mutants = map[string][]Mutant{
 		{"ToPDF forgets ReplaceArcs", "path.go", `\tp = p\.ReplaceArcs\(\)\n\n\tsb := strings\.Builder\{\}\n\tvar x, y float64\n\tfor i := 0; i < len\(p\.d\); \{\n\t\tcmd := p\.d\[i\]\n\t\tswitch cmd \{\n\t\tcase MoveToCmd:\n\t\t\tx, y = p\.d\[i\+1\], p\.d\[i\+2\]\n\t\t\tfmt\.Fprintf\(&sb, " %v %v m"`, "\tsb := strings.Builder{}\n\tvar x, y float64\n\tfor i := 0; i < len(p.d); {\n\t\tcmd := p.d[i]\n\t\tswitch cmd {\n\t\tcase MoveToCmd:\n\t\t\tx, y = p.d[i+1], p.d[i+2]\n\t\t\tfmt.Fprintf(&sb, \" %v %v m\"", "E10.consumer"},
 	},
 	"C04": {
+		{"inner bend steps back by the length of a line", "path_stroke.go", `ai := i - cmdLen\(p\.d\[i-1\]\)`, "ai := i - cmdLen(LineToCmd)", "E2.backward-step-known-kind"},
 		{"end normals of a cubic from the raw derivative", "path_stroke.go", `n1 := cubicBezierNormal\(start, cp1, cp2, end, 1\.0, halfWidth\)`, "n1 := cubicBezierDeriv(start, cp1, cp2, end, 1.0).Rot90CW().Norm(halfWidth)", "E11.bezier-normal-helper"},
 		{"arcs join passes the first circle's flag form for the second circle", "path_stroke.go", `(\t\tmid = closestArcIntersection\(c1, )0\.0 <= r1(, pivot, i0, i1\))`, "${1}r1 < 0.0${2}", "E11.arc-join-direction-flags"},
 		{"last x-monotone arc piece ends at a recomputed position (reverts fix efe7f4b)", "path_util.go", `(?s)\t\tpos := end // [^\n]*\n\t\tif !angleEqual\(t, theta1\) \{\n\t\t\tpos = EllipsePos\(rx, ry, phi, cx, cy, t\)\n\t\t\}\n`, "\t\tpos := EllipsePos(rx, ry, phi, cx, cy, t)\n", "E11.split-keeps-endpoint"},
@@ -101,6 +102,7 @@ var Mutants = map[string][]Mutant{
 		{"closed flag also set by MoveTo", "path_stroke.go", `\t\tcase MoveToCmd:\n\t\t\tend = Point\{p\.d\[i\+1\], p\.d\[i\+2\]\}\n\t\tcase LineToCmd:\n\t\t\tend = Point\{p\.d\[i\+1\], p\.d\[i\+2\]\}\n\t\t\tn := end`, "\t\tcase MoveToCmd:\n\t\t\tend = Point{p.d[i+1], p.d[i+2]}\n\t\t\tclosed = false\n\t\tcase LineToCmd:\n\t\t\tend = Point{p.d[i+1], p.d[i+2]}\n\t\t\tn := end", "E11.cap-join"},
 	},
 	"C05": {
+		{"SplitAt drops a leading cut within Epsilon of zero", "path.go", `(sort\.Float64s\(ts\)\n\t)if ts\[0\] == 0\.0 \{`, "${1}if Equal(ts[0], 0.0) {", "E11.leading-cut-exact"},
 		{"dash pattern reduced to a period that need not divide it", "path.go", `(?s)REPEAT:\n\tfor len\(d\)%2 == 0 \{\n\t\tmid := len\(d\) / 2\n\t\tfor i := 0; i < mid; i\+\+ \{\n\t\t\tif !Equal\(d\[i\], d\[mid\+i\]\) \{\n\t\t\t\tbreak REPEAT\n\t\t\t\}\n\t\t\}\n\t\td = d\[:mid\]\n\t\}\n`, "\tfor n := 1; n <= len(d)/2; n++ {\n\t\ti := n\n\t\tfor i < len(d) && Equal(d[i], d[i-n]) {\n\t\t\ti++\n\t\t}\n\t\tif i == len(d) {\n\t\t\td = d[:n]\n\t\t\tbreak\n\t\t}\n\t}\n", "E11.dash-reduction-divides"},
 		{"short sub-paths skip the cut loop by the element length alone", "path.go", `(\t\tlength := ps\.Length\(\)\n)(\t\tfor pos\+d\[i\]\+Epsilon < length \{)`, "${1}\t\tif length < d[i0] {\n\t\t\tif i0%2 == 0 {\n\t\t\t\tq = q.Append(ps)\n\t\t\t}\n\t\t\tcontinue\n\t\t}\n${2}", "E11.dash-cover"},
 		{"negative offset wrapped as Mod(offset+sum, sum)", "path.go", `offset = math\.Mod\(offset, dTotal\) \+ dTotal`, "offset = math.Mod(offset+dTotal, dTotal)", "E11.dash-offset-range"},
@@ -118,6 +120,7 @@ var Mutants = map[string][]Mutant{
 		{"arc cut relative to the arc start", "path.go", `ellipseSplit\(rx, ry, phi, cx, cy, startTheta, theta2, theta\)`, `ellipseSplit(rx, ry, phi, cx, cy, theta1, theta2, theta)`, "E11.cut-carried"},
 	},
 	"C06": {
+		{"pending hit replaced when the next hit lies elsewhere", "path.go", `\n\t\t\} else if prev == nil \{`, "\n\t\t} else if prev == nil || !prev.Point.Equals(z.Point) {", "E9.pending-not-overwritten"},
 		{"second derivative of the cubic taken at the line parameter", "path_intersection_util.go", `(if endpoint \{\n[^\n]*\n\t\t\t\t\tderiv2 := cubicBezierDeriv2\(p0, p1, p2, p3, )root\)`, "${1}s)", "E9.curve-parameter-domain"},
 		{"x-monotone arc pieces inherit the large flag", "path_util.go", `(p\.ArcTo\(rx, ry, phi\*180\.0/math\.Pi, )false(, sweep, pos\.X, pos\.Y\))`, "${1}large${2}", "E11.piece-flag-not-whole-arcs"},
 		{"second root re-mapped whenever the roots are ordered", "path_util.go", `(?s)\tsplit := false\n(.*?)\t\tsplit = true\n(.*?)\t\tif split \{\n\t\t\tt2 = \(t2 - t1\)`, "${1}${2}\t\tif t1 < t2 {\n\t\t\tt2 = (t2 - t1)", "E11.remap-iff-split"},
